@@ -1,38 +1,62 @@
 import SigModel.Model.Bulk
 /-
-Helper lemmas for C15 (bulk loop).  `Props/C15.lean` defines `Action`, `status`, … which cannot be
-imported here, so the same small definitions are duplicated (`Act`, `Act.status`, …), every lemma is
-proved for them, and `handle_spec` at the end is stated generically over any type `α` with a
-translation `toAct : α → Act` that commutes with the four projections (proved by `cases a <;> rfl`
-at the use site).
+Helper lemmas for C15, part 1 (the loop of the REPAIRED code, `Version.fixed`), and the vocabulary the property
+theorems are stated in: a request as a list of actions (`Act`), the per-action specification (`Act.status`,
+`Act.storedOf`) and the accepted events with the positions of their items (`plesFrom`).
 -/
 namespace SigModel.Lemmas.C15
 open SigModel.Bulk
 
+/-- an action of the request: a one-line action (delete / unknown / malformed), or an
+index/create/update action followed by its document line -/
 inductive Act where
   | single (l : Line)
   | withDoc (a doc : Line)
+deriving Repr, DecidableEq
 
 def Act.lines : Act → List Line
   | .single l => [l]
   | .withDoc a d => [a, d]
 
+/-- what the request syntax guarantees about the abstraction of a line -/
 def Act.wf : Act → Prop
   | .single l => l.kind = Kind.other ∧ 0 < l.len
   | .withDoc a d => a.kind ≠ Kind.other ∧ 0 < a.len ∧ 0 < d.len
 
+/-- the per-action specification of the LOOP: depends on nothing but the action itself (and the predicates on
+its index name) -/
 def Act.status (env : Env) : Act → Status
   | .single _ => .failed
   | .withDoc a d =>
     if a.kind = Kind.update then .failed
     else if env.valid a.idx = false then .failed
     else if maxRecordSize ≤ d.len then .tooLarge
+    else if env.kibana a.idx = true then .failed
     else if d.docOk then .created else .failed
 
+/-- the document an action contributes, with the index name of the action -/
 def Act.storedOf (env : Env) : Act → List (Nat × Nat)
   | .single _ => []
   | .withDoc a d =>
-    if a.kind ≠ Kind.update ∧ env.valid a.idx = true ∧ d.len < maxRecordSize ∧ d.docOk then [(a.idx, d.id)] else []
+    if a.kind ≠ Kind.update ∧ env.valid a.idx = true ∧ d.len < maxRecordSize ∧ env.kibana a.idx = false ∧ d.docOk
+    then [(a.idx, d.id)] else []
+
+/-- the index name an action addresses / the id of its document -/
+def Act.idxOf : Act → Nat
+  | .single l => l.idx
+  | .withDoc a _ => a.idx
+
+def Act.docId : Act → Nat
+  | .single l => l.id
+  | .withDoc _ d => d.id
+
+/-- the event an action contributes when its item has position `pos` -/
+def Act.pleOf (env : Env) (a : Act) (pos : Nat) : List Ple := (a.storedOf env).map (fun p => (p.1, p.2, pos))
+
+/-- the events of a list of actions whose first item has position `off` -/
+def plesFrom (env : Env) : List Act → Nat → List Ple
+  | [], _ => []
+  | a :: r, off => a.pleOf env off ++ plesFrom env r (off + 1)
 
 def emptyLine : Line := { kind := .other, len := 0, docOk := false, id := 0, idx := 0 }
 
@@ -43,13 +67,13 @@ def tailItems (dangling : Option Line) : List Status :=
   (dangling.map (fun _ => Status.failed)).toList
 
 /-- `s'` extends `s` by the items `its`, the stored ids `st`, and the corresponding error flag -/
-def Good (s s' : St) (its : List Status) (st : List (Nat × Nat)) : Prop :=
+def Good (s s' : St) (its : List Status) (st : List Ple) : Prop :=
   s'.items = s.items ++ its ∧ s'.ples = s.ples ++ st ∧
   s'.overallError = (s.overallError || its.any (· ≠ Status.created))
 
 theorem Good.refl (s : St) : Good s s [] [] := by simp [Good]
 
-theorem Good.trans {s s' s'' : St} {i1 i2 : List Status} {t1 t2 : List (Nat × Nat)}
+theorem Good.trans {s s' s'' : St} {i1 i2 : List Status} {t1 t2 : List Ple}
     (h1 : Good s s' i1 t1) (h2 : Good s' s'' i2 t2) : Good s s'' (i1 ++ i2) (t1 ++ t2) := by
   obtain ⟨a1, b1, c1⟩ := h1
   obtain ⟨a2, b2, c2⟩ := h2
@@ -58,63 +82,64 @@ theorem Good.trans {s s' s'' : St} {i1 i2 : List Status} {t1 t2 : List (Nat × N
   · rw [b2, b1, List.append_assoc]
   · rw [c2, c1, List.any_append, Bool.or_assoc]
 
-theorem loop_nil (env : Env) (f : Nat) (s : St) : loop env f s [] = s := by
+theorem loop_nil (env : Env) (f : Nat) (s : St) : loop Version.fixed env f s [] = s := by
   cases f <;> simp [loop, readLine, remEmpty]
 
-theorem loop_emptyLine (env : Env) (f : Nat) (s : St) : loop env f s [emptyLine] = s := by
+theorem loop_emptyLine (env : Env) (f : Nat) (s : St) : loop Version.fixed env f s [emptyLine] = s := by
   cases f <;> simp [loop, readLine, remEmpty, emptyLine]
 
-theorem loop_tail_none (env : Env) (f : Nat) (s : St) (nl : Bool) : loop env f s (tailOf none nl) = s := by
+theorem loop_tail_none (env : Env) (f : Nat) (s : St) (nl : Bool) : loop Version.fixed env f s (tailOf none nl) = s := by
   cases nl
   · simpa [tailOf] using loop_nil env f s
   · simpa [tailOf] using loop_emptyLine env f s
 
 /-- an iteration on a non-empty line is `stepAction` -/
 theorem loop_succ (env : Env) (l : Line) (hl : 0 < l.len) (f : Nat) (s : St) (rest : List Line) :
-    loop env (f+1) s (l :: rest) = loop env f (stepAction env s l rest).1 (stepAction env s l rest).2 := by
+    loop Version.fixed env (f+1) s (l :: rest) = loop Version.fixed env f (stepAction Version.fixed env s l rest).1 (stepAction Version.fixed env s l rest).2 := by
   have hne : (l.len == 0) = false := by simp; omega
   simp [loop, readLine, hne]
 
 /-- a one-line action (kind `other`) yields one `failed` item and consumes one line -/
 theorem stepAction_single (env : Env) (l : Line) (hk : l.kind = Kind.other) (s : St) (rest : List Line) :
-    (stepAction env s l rest).2 = rest ∧ Good s (stepAction env s l rest).1 [Status.failed] [] := by
+    (stepAction Version.fixed env s l rest).2 = rest ∧ Good s (stepAction Version.fixed env s l rest).1 [Status.failed] [] := by
   simp [stepAction, hk, Good]
 
 /-- an index/create/update action with a non-empty document line -/
 theorem stepAction_withDoc (env : Env) (a d : Line) (hk : a.kind ≠ Kind.other) (hd : 0 < d.len)
     (s : St) (rest : List Line) :
-    (stepAction env s a (d :: rest)).2 = rest ∧
-    Good s (stepAction env s a (d :: rest)).1 [(Act.withDoc a d).status env] ((Act.withDoc a d).storedOf env) := by
+    (stepAction Version.fixed env s a (d :: rest)).2 = rest ∧
+    Good s (stepAction Version.fixed env s a (d :: rest)).1 [(Act.withDoc a d).status env]
+      ((Act.withDoc a d).pleOf env s.items.length) := by
   have hne : (d.len == 0) = false := by simp; omega
   cases hkind : a.kind with
   | other => exact absurd hkind hk
-  | update => simp [stepAction, hkind, readLine, Good, Act.status, Act.storedOf]
+  | update => simp [stepAction, hkind, readLine, Good, Act.status, Act.storedOf, Act.pleOf]
   | index =>
     cases hv : env.valid a.idx with
-    | false => simp [stepAction, hkind, readLine, Good, Act.status, Act.storedOf, hne, hv]
+    | false => simp [stepAction, hkind, readLine, Good, Act.status, Act.storedOf, Act.pleOf, hne, hv]
     | true =>
       by_cases h1 : d.len < maxRecordSize
       · have h1' : ¬ maxRecordSize ≤ d.len := by omega
-        cases h2 : d.docOk <;>
-          simp [stepAction, hkind, readLine, Good, Act.status, Act.storedOf, hne, hv, h1, h1', h2]
+        cases hkb : env.kibana a.idx <;> cases h2 : d.docOk <;>
+          simp [stepAction, Version.fixed, hkind, readLine, Good, Act.status, Act.storedOf, Act.pleOf, hne, hv, hkb, h1, h1', h2]
       · have h1' : maxRecordSize ≤ d.len := by omega
-        simp [stepAction, hkind, readLine, Good, Act.status, Act.storedOf, hne, hv, h1, h1']
+        simp [stepAction, hkind, readLine, Good, Act.status, Act.storedOf, Act.pleOf, hne, hv, h1, h1']
   | create =>
     cases hv : env.valid a.idx with
-    | false => simp [stepAction, hkind, readLine, Good, Act.status, Act.storedOf, hne, hv]
+    | false => simp [stepAction, hkind, readLine, Good, Act.status, Act.storedOf, Act.pleOf, hne, hv]
     | true =>
       by_cases h1 : d.len < maxRecordSize
       · have h1' : ¬ maxRecordSize ≤ d.len := by omega
-        cases h2 : d.docOk <;>
-          simp [stepAction, hkind, readLine, Good, Act.status, Act.storedOf, hne, hv, h1, h1', h2]
+        cases hkb : env.kibana a.idx <;> cases h2 : d.docOk <;>
+          simp [stepAction, Version.fixed, hkind, readLine, Good, Act.status, Act.storedOf, Act.pleOf, hne, hv, hkb, h1, h1', h2]
       · have h1' : maxRecordSize ≤ d.len := by omega
-        simp [stepAction, hkind, readLine, Good, Act.status, Act.storedOf, hne, hv, h1, h1']
+        simp [stepAction, hkind, readLine, Good, Act.status, Act.storedOf, Act.pleOf, hne, hv, h1, h1']
 
 /-- an index/create/update line whose document is missing (end of body, or only the trailing
 newline follows) -/
 theorem stepAction_dangling (env : Env) (l : Line) (hk : l.kind ≠ Kind.other) (nl : Bool) (s : St) :
-    (stepAction env s l (if nl then [emptyLine] else [])).2 = [] ∧
-    Good s (stepAction env s l (if nl then [emptyLine] else [])).1 [Status.failed] [] := by
+    (stepAction Version.fixed env s l (if nl then [emptyLine] else [])).2 = [] ∧
+    Good s (stepAction Version.fixed env s l (if nl then [emptyLine] else [])).1 [Status.failed] [] := by
   cases hkind : l.kind with
   | other => exact absurd hkind hk
   | update => cases nl <;> simp [stepAction, hkind, readLine, Good, emptyLine]
@@ -123,19 +148,20 @@ theorem stepAction_dangling (env : Env) (l : Line) (hk : l.kind ≠ Kind.other) 
 
 /-- one complete action: one unit of fuel, one item -/
 theorem loop_act (env : Env) (a : Act) (hwf : a.wf) (f : Nat) (s : St) (rest : List Line) :
-    ∃ s', loop env (f+1) s (a.lines ++ rest) = loop env f s' rest ∧ Good s s' [a.status env] (a.storedOf env) := by
+    ∃ s', loop Version.fixed env (f+1) s (a.lines ++ rest) = loop Version.fixed env f s' rest ∧
+      Good s s' [a.status env] (a.pleOf env s.items.length) := by
   cases a with
   | single l =>
     obtain ⟨hk, hl⟩ := hwf
     obtain ⟨h1, h2⟩ := stepAction_single env l hk s rest
-    refine ⟨(stepAction env s l rest).1, ?_, h2⟩
+    refine ⟨(stepAction Version.fixed env s l rest).1, ?_, by simpa [Act.pleOf, Act.storedOf, Act.status] using h2⟩
     have := loop_succ env l hl f s rest
     rw [h1] at this
     simpa [Act.lines] using this
   | withDoc x d =>
     obtain ⟨hk, hx, hd⟩ := hwf
     obtain ⟨h1, h2⟩ := stepAction_withDoc env x d hk hd s rest
-    refine ⟨(stepAction env s x (d :: rest)).1, ?_, h2⟩
+    refine ⟨(stepAction Version.fixed env s x (d :: rest)).1, ?_, h2⟩
     have := loop_succ env x hx f s (d :: rest)
     rw [h1] at this
     simpa [Act.lines] using this
@@ -143,7 +169,7 @@ theorem loop_act (env : Env) (a : Act) (hwf : a.wf) (f : Nat) (s : St) (rest : L
 /-- the tail of the body: optional dangling action line, optional trailing newline -/
 theorem loop_tail (env : Env) (dangling : Option Line) (nl : Bool)
     (hd : ∀ l, dangling = some l → l.kind ≠ Kind.other ∧ 0 < l.len) (f : Nat) (s : St) :
-    Good s (loop env (f+1) s (tailOf dangling nl)) (tailItems dangling) [] := by
+    Good s (loop Version.fixed env (f+1) s (tailOf dangling nl)) (tailItems dangling) [] := by
   cases dangling with
   | none => rw [loop_tail_none]; exact Good.refl s
   | some l =>
@@ -159,13 +185,13 @@ theorem loop_tail (env : Env) (dangling : Option Line) (nl : Bool)
 theorem loop_inv (env : Env) (acts : List Act) (dangling : Option Line) (nl : Bool)
     (hwf : ∀ a ∈ acts, a.wf) (hd : ∀ l, dangling = some l → l.kind ≠ Kind.other ∧ 0 < l.len) :
     ∀ (f : Nat) (s : St), acts.length + 1 ≤ f →
-      Good s (loop env f s (acts.flatMap Act.lines ++ tailOf dangling nl))
-        (acts.map (Act.status env) ++ tailItems dangling) (acts.flatMap (Act.storedOf env)) := by
+      Good s (loop Version.fixed env f s (acts.flatMap Act.lines ++ tailOf dangling nl))
+        (acts.map (Act.status env) ++ tailItems dangling) (plesFrom env acts s.items.length) := by
   induction acts with
   | nil =>
     intro f s hf
     obtain ⟨f', rfl⟩ : ∃ f', f = f' + 1 := ⟨f - 1, by simp at hf; omega⟩
-    simpa using loop_tail env dangling nl hd f' s
+    simpa [plesFrom] using loop_tail env dangling nl hd f' s
   | cons a acts ih =>
     intro f s hf
     obtain ⟨f', rfl⟩ : ∃ f', f = f' + 1 := ⟨f - 1, by simp at hf; omega⟩
@@ -173,8 +199,10 @@ theorem loop_inv (env : Env) (acts : List Act) (dangling : Option Line) (nl : Bo
     have hwf' : ∀ b ∈ acts, b.wf := fun b hb => hwf b (by simp [hb])
     obtain ⟨s', h1, h2⟩ := loop_act env a hwfa f' s (acts.flatMap Act.lines ++ tailOf dangling nl)
     have h3 := ih hwf' f' s' (by simp at hf; omega)
+    have hlen : s'.items.length = s.items.length + 1 := by rw [h2.1]; simp
+    rw [hlen] at h3
     have := Good.trans h2 h3
-    simp only [List.flatMap_cons, List.map_cons, List.append_assoc]
+    simp only [List.flatMap_cons, List.map_cons, List.append_assoc, plesFrom]
     rw [h1]
     simpa using this
 
@@ -186,42 +214,40 @@ theorem length_le_flatMap_lines (acts : List Act) : acts.length ≤ (acts.flatMa
 /-- `handle` on a well-formed body, for the duplicated definitions -/
 theorem handle_act (env : Env) (acts : List Act) (dangling : Option Line) (nl : Bool)
     (hwf : ∀ a ∈ acts, a.wf) (hd : ∀ l, dangling = some l → l.kind ≠ Kind.other ∧ 0 < l.len) :
-    Good {} (handle env (acts.flatMap Act.lines ++ tailOf dangling nl))
-      (acts.map (Act.status env) ++ tailItems dangling) (acts.flatMap (Act.storedOf env)) := by
+    Good {} (handle Version.fixed env (acts.flatMap Act.lines ++ tailOf dangling nl))
+      (acts.map (Act.status env) ++ tailItems dangling) (plesFrom env acts 0) := by
   unfold handle
+  have h0 : plesFrom env acts 0 = plesFrom env acts ({} : St).items.length := rfl
+  rw [h0]
   apply loop_inv env acts dangling nl hwf hd
   have := length_le_flatMap_lines acts
   simp only [List.length_append]
   omega
 
-/-- Generic form used by `Props/C15.lean`: any action type `α` whose projections factor through
-`Act`.  (`body` is spelled exactly as `bodyOf` unfolds.) -/
-theorem handle_spec (env : Env) {α : Type} (toAct : α → Act)
-    (lines : α → List Line) (wf : α → Prop) (status : α → Status) (storedOf : α → List (Nat × Nat))
-    (hl : ∀ a, lines a = (toAct a).lines) (hw : ∀ a, wf a → (toAct a).wf)
-    (hs : ∀ a, status a = (toAct a).status env) (ht : ∀ a, storedOf a = (toAct a).storedOf env)
-    (acts : List α) (dangling : Option Line) (nl : Bool)
-    (hwf : ∀ a ∈ acts, wf a) (hd : ∀ l, dangling = some l → l.kind ≠ Kind.other ∧ 0 < l.len) :
-    let r := handle env (acts.flatMap lines ++ dangling.toList ++
-      (if nl then [({ kind := .other, len := 0, docOk := false, id := 0, idx := 0 } : Line)] else []))
-    let its := acts.map status ++ (dangling.map (fun _ => Status.failed)).toList
-    r.items = its ∧ r.ples = acts.flatMap storedOf ∧
-      r.overallError = its.any (· ≠ Status.created) := by
-  have h := handle_act env (acts.map toAct) dangling nl
-    (by intro a ha; obtain ⟨b, hb, rfl⟩ := List.mem_map.1 ha; exact hw b (hwf b hb)) hd
-  have e1 : (acts.map toAct).flatMap Act.lines = acts.flatMap lines := by
-    rw [List.flatMap_map]; congr 1; funext a; exact (hl a).symm
-  have e2 : (acts.map toAct).map (Act.status env) = acts.map status := by
-    rw [List.map_map]; congr 1; funext a; exact (hs a).symm
-  have e3 : (acts.map toAct).flatMap (Act.storedOf env) = acts.flatMap storedOf := by
-    rw [List.flatMap_map]; congr 1; funext a; exact (ht a).symm
-  rw [e1, e2, e3] at h
+/-- the body: complete actions, then optionally an index/create/update line whose document is
+missing, then optionally the trailing newline (= a final empty line) -/
+def bodyOf (acts : List Act) (dangling : Option Line) (nl : Bool) : List Line :=
+  acts.flatMap Act.lines ++ dangling.toList ++ (if nl then [emptyLine] else [])
+
+/-- the items the loop leaves -/
+def loopItems (env : Env) (acts : List Act) (dangling : Option Line) : List Status :=
+  acts.map (Act.status env) ++ tailItems dangling
+
+/-- the loop on a well-formed body: items, accepted events with their item positions, `errors` flag -/
+theorem handle_spec (env : Env) (acts : List Act) (dangling : Option Line) (nl : Bool)
+    (hwf : ∀ a ∈ acts, a.wf) (hd : ∀ l, dangling = some l → l.kind ≠ Kind.other ∧ 0 < l.len) :
+    (handle Version.fixed env (bodyOf acts dangling nl)).items = loopItems env acts dangling ∧
+    (handle Version.fixed env (bodyOf acts dangling nl)).ples = plesFrom env acts 0 ∧
+    (handle Version.fixed env (bodyOf acts dangling nl)).overallError = (loopItems env acts dangling).any (· ≠ Status.created) := by
+  have h := handle_act env acts dangling nl hwf hd
   obtain ⟨h1, h2, h3⟩ := h
-  simp only [tailOf, tailItems, emptyLine, ← List.append_assoc] at h1 h2 h3
+  have e : bodyOf acts dangling nl = acts.flatMap Act.lines ++ tailOf dangling nl := by
+    simp [bodyOf, tailOf, List.append_assoc]
+  rw [e]
   refine ⟨?_, ?_, ?_⟩
-  · simpa using h1
+  · simpa [loopItems] using h1
   · simpa using h2
-  · simpa using h3
+  · simpa [loopItems] using h3
 
 /-- `storedOf` is non-empty exactly for `created` actions -/
 theorem storedOf_ne_nil_iff (env : Env) (a : Act) : a.storedOf env ≠ [] ↔ a.status env = Status.created := by
@@ -235,8 +261,27 @@ theorem storedOf_ne_nil_iff (env : Env) (a : Act) : a.storedOf env ≠ [] ↔ a.
       | true =>
         by_cases h2 : d.len < maxRecordSize
         · have h2' : ¬ maxRecordSize ≤ d.len := by omega
-          cases h3 : d.docOk <;> simp [Act.storedOf, Act.status, h1, hv, h2, h2', h3]
+          cases hkb : env.kibana x.idx <;> cases h3 : d.docOk <;>
+            simp [Act.storedOf, Act.status, h1, hv, hkb, h2, h2', h3]
         · have h2' : maxRecordSize ≤ d.len := by omega
           simp [Act.storedOf, Act.status, h1, hv, h2, h2']
+
+/-- a created action contributes exactly its own (index name, document id) -/
+theorem storedOf_of_created (env : Env) (a : Act) (h : a.status env = Status.created) :
+    a.storedOf env = [(a.idxOf, a.docId)] := by
+  have hne := (storedOf_ne_nil_iff env a).2 h
+  cases a with
+  | single l => simp [Act.storedOf] at hne
+  | withDoc x d =>
+    by_cases hc : x.kind ≠ Kind.update ∧ env.valid x.idx = true ∧ d.len < maxRecordSize ∧ env.kibana x.idx = false ∧ d.docOk
+    · simp only [Act.storedOf, if_pos hc, Act.idxOf, Act.docId]
+    · simp only [Act.storedOf, if_neg hc] at hne
+      exact absurd rfl hne
+
+theorem storedOf_of_not_created (env : Env) (a : Act) (h : a.status env ≠ Status.created) :
+    a.storedOf env = [] := by
+  by_cases hn : a.storedOf env = []
+  · exact hn
+  · exact absurd ((storedOf_ne_nil_iff env a).1 hn) h
 
 end SigModel.Lemmas.C15
